@@ -92,23 +92,49 @@ def replay_chunk(cases: List[Dict[str, Any]]):
         if obs["raised"] is not None:
             out["viol"].append((f"raised:{shape}", f"valid sweep raised {obs['raised']}; {nodes[-1]}", {"case": c}))
             continue
-        data, fctx = obs["final"]
-        want = [float(x) for x in c["out"]]
-        if sp["kind"] == "probe":
-            got = fctx.get("res")
-            if data != ("float", 1.0):
-                out["viol"].append((f"probe-not-passthrough:{shape}", f"swept probe changed the data: {data}", {"case": c}))
-        else:
-            got = data[1] if data[0] == "coll" else data
-        if not close(got, want):
-            order = "order" if isinstance(got, list) and sorted(map(float, got)) == sorted(want) else "content"
-            out["viol"].append((f"elements-{order}:{shape}", f"expected elements {want}, got {got}; {nodes[-1]['derive']}", {"case": c}))
-        pub = c["published"] if isinstance(c["published"], dict) else {}
-        for var, seq in pub.items():
-            gotv = fctx.get(f"{var}_values")
-            if gotv is None or not close(list(gotv), [float(x) for x in seq]):
-                out["viol"].append((f"values-not-published:{sp['kind']}:{sp['vars'][var]['t']}",
-                                    f"{var}_values should be {[float(x) for x in seq]} in the context, found {gotv} (context keys {sorted(fctx)}); {nodes[-1]['derive']}", {"case": c}))
+        def compare(obs, tag=""):
+            data, fctx = obs["final"]
+            want = [float(x) for x in c["out"]]
+            if sp["kind"] == "probe":
+                got = fctx.get("res")
+                if data != ("float", 1.0):
+                    out["viol"].append((tag + f"probe-not-passthrough:{shape}", f"swept probe changed the data: {data}", {"case": c}))
+            else:
+                got = data[1] if data[0] == "coll" else data
+            if not close(got, want):
+                order = "order" if isinstance(got, list) and sorted(map(float, got)) == sorted(want) else "content"
+                out["viol"].append((tag + f"elements-{order}:{shape}", f"expected elements {want}, got {got}; {nodes[-1]['derive']}", {"case": c}))
+            pub = c["published"] if isinstance(c["published"], dict) else {}
+            for var, seq in pub.items():
+                gotv = fctx.get(f"{var}_values")
+                if gotv is None or not close(list(gotv), [float(x) for x in seq]):
+                    out["viol"].append((tag + f"values-not-published:{sp['kind']}:{sp['vars'][var]['t']}",
+                                        f"{var}_values should be {[float(x) for x in seq]} in the context, found {gotv} (context keys {sorted(fctx)}); {nodes[-1]['derive']}", {"case": c}))
+        compare(obs)
+        # HISTORY: the caller edits the published <var>_values (and any other list it got back) in place, then the SAME Pipeline
+        # object runs again on a fresh payload: the element sequence and the published values are those of the configuration
+        if _zlib.crc32(repr(sp).encode()) % 4 == 0 and obs.get("result") is not None:
+            import copy as _copy
+            from semantiva.pipeline import Pipeline
+            from ..seams import make_recording_orchestrator
+            ctx2 = {k: (list(v) if isinstance(v, list) else v) for k, v in ctx.items() if not k.endswith("_values") or k in ("s_values",)}
+            try:
+                pobj = Pipeline(_copy.deepcopy(nodes))
+            except Exception:
+                pobj = None
+            if pobj is not None:
+                orch = make_recording_orchestrator()
+                first = run_nodes(nodes, NoDataType(), _copy.deepcopy(ctx2), pipeline=pobj, orchestrator=orch)
+                if first.get("result") is not None:
+                    for v_ in list(first["result"].context.to_dict().values()):
+                        if isinstance(v_, list) and v_:
+                            v_.reverse()
+                            v_.append(-12345.0)
+                    second = run_nodes(nodes, NoDataType(), _copy.deepcopy(ctx2), pipeline=pobj, orchestrator=orch)
+                    if second["raised"] is None:
+                        compare(second, "second-run-on-one-pipeline:")
+                    else:
+                        out["viol"].append((f"second-run-on-one-pipeline:raised:{shape}", f"second run of one Pipeline object raised {second['raised']}; {nodes[-1]}", {"case": c}))
     return out
 
 
